@@ -1079,6 +1079,27 @@ def gen_c12(rng, tier):
         c.tags["cost"] = n * 30
         c.model = n <= 1100
         out.append(c)
+    # bit vectors whose length is a multiple of (or next to) the word / line size, iterated to the very end by
+    # every iterator, from both ends
+    kk = 0
+    for kind in ["bv", "bvm", "darray1", "darray0"]:
+        for n in sizes(tier, [64, 512, 1024, 513], [63, 64, 65, 511, 512, 513, 1024, 1536, 4096]):
+            bits, mix = C.gen_bits(rng, n)
+            c = Case("c12-end%d" % kk, tags=dict(kind=kind, n=n, mix=mix, cost=n * 30))
+            kk += 1
+            c.add(C.bits_line(kind, "bits", bits))
+            if kind.startswith("darray"):
+                c.add("ITER bits %s" % ("n" * (n + 2) + "l"))
+                c.add("ITER ones %s" % ("n" * (sum(bits) + 2)))
+                c.add("ITER zeros %s" % ("n" * (n - sum(bits) + 2)))
+            else:
+                for src in ["iter", "into"]:
+                    c.add("ITER %s %s" % (src, "n" * (n + 2) + "lnl"))
+                    c.add("ITER %s %s" % (src, "l" + "n" * (n - 1) + "lnlnl"))
+                c.add("ITER ones %s" % ("n" * (sum(bits) + 2)))
+                c.add("ITER zeros %s" % ("n" * (n - sum(bits) + 2)))
+            c.model = n <= 1100
+            out.append(c)
     return out
 
 
